@@ -233,7 +233,7 @@ def _pipe(case, ctx):
     use_grid = rng.random() < 0.4
     lo, hi = -int(rng.integers(0, 4)), int(rng.integers(0, 4))
     if use_grid:
-        disp = gen.grids(rng, rows, cols, lo, hi, "random")
+        disp = gen.grids(rng, rows, cols, lo, hi, ["random", "band", "pointvar"][int(rng.integers(0, 3))])
     else:
         disp = (lo, hi)
     left = gen.make_dataset(l, disp, lm)
